@@ -507,7 +507,8 @@ def check_wrappers(ctx, rule, module_names):
             n += 1
             results = {}
             for conv in ("positional", "keywords", "keywords reversed"):
-                it = interp(ctx)
+                # only the calling convention is compared: the other public functions of the package stay single terms
+                it = interp(ctx, opaque={q for q, g in ctx.P.functions.items() if g is not fi and g.parent is None and g.cls is None and not g.name.startswith("_")})
 
                 def runner(x, conv=conv, fi=fi):
                     bound = x.symbolic_args(fi)
